@@ -63,6 +63,13 @@ def eval_case(case):
     for j, e in enumerate(errors):
         s = decoding.own_syndrome(H, e)
         lib_s = np.asarray(code.measure_syndrome(e))
+        # callers hand syndromes over in several integer dtypes (the library's
+        # own uint8, the GUI's int64 from JSON)
+        which = (case['rseed'] + j) % 3
+        if which == 1:
+            lib_s = lib_s.astype(np.int64)
+        elif which == 2:
+            lib_s = np.array([int(v) for v in lib_s])
         c = dec.decode(lib_s)
         c = np.asarray(c)
         if c.shape != (2 * n,):
